@@ -39,6 +39,7 @@ struct BatchOut {
     samples: Vec<serde_json::Value>,
     determinism_rechecked: u64,
     determinism_mismatch: u64,
+    pilots: u64,
 }
 
 #[derive(Serialize, Deserialize, Clone)]
@@ -123,7 +124,40 @@ fn run_batch(prop: &str, seed: u64, start: u64, count: u64, replay_dir: &str, pr
             let line = format!("{:>20} {:>20}\n", idx, run_seed);
             let _ = f.write_at(line.as_bytes(), 0);
         }
-        let scn = gen::generate(prop, run_seed);
+        let base = gen::generate(prop, run_seed);
+        // fault enumeration: positions are swept inside each sampled scenario
+        let variants: Vec<Scenario> = match prop {
+            "C12" => {
+                let pilot = interp::run_scenario(&base);
+                out.pilots += 1;
+                let mut v = gen::c12_variants(&base, &pilot.out.api_log, run_seed);
+                if let Some(ev) = pilot.out.events.first() {
+                    // the fault-free pilot itself must be clean; judge it like any run
+                    let _ = ev;
+                    v.insert(0, base.clone());
+                }
+                v
+            }
+            "C11" => {
+                let mut v = gen::c11_variants(&base, run_seed);
+                v.push(base.clone());
+                v
+            }
+            _ => vec![base],
+        };
+        for (vi, scn) in variants.into_iter().enumerate() {
+            process_run(prop, seed, idx, vi as u64, run_seed, &scn, &mut out, &mut fps, replay_dir, max_viol);
+        }
+    }
+    out.distinct_nontrivial = fps.len() as u64;
+    out.fingerprints = fps.into_iter().collect();
+    out
+}
+
+
+#[allow(clippy::too_many_arguments)]
+fn process_run(prop: &str, seed: u64, idx: u64, variant: u64, run_seed: u64, scn: &Scenario, out: &mut BatchOut, fps: &mut HashSet<u64>, replay_dir: &str, max_viol: usize) {
+    let scn = scn.clone();
         let r = interp::run_scenario(&scn);
         out.runs += 1;
         out.steps += r.out.stats.steps;
@@ -133,11 +167,11 @@ fn run_batch(prop: &str, seed: u64, start: u64, count: u64, replay_dir: &str, pr
         coverage_keys(&scn, &mut out.coverage);
         if nontrivial(prop, &r) {
             out.nontrivial += 1;
-            let h = rng::fnv(r.out.fp, run_seed);
+            let h = rng::fnv(rng::fnv(r.out.fp, run_seed), variant);
             fps.insert(h);
         }
         // determinism self-check on a sample of our own runs
-        if idx % 97 == 0 {
+        if (idx + variant) % 97 == 0 {
             let r2 = interp::run_scenario(&scn);
             out.determinism_rechecked += 1;
             if r2.out.fp != r.out.fp || r2.out.trace != r.out.trace {
@@ -147,7 +181,7 @@ fn run_batch(prop: &str, seed: u64, start: u64, count: u64, replay_dir: &str, pr
         }
         if out.samples.len() < 3 && nontrivial(prop, &r) {
             out.samples.push(serde_json::json!({
-                "run_index": idx, "run_seed": run_seed,
+                "run_index": idx, "run_seed": run_seed, "variant": variant, "faults": scn.cfg.faults,
                 "world": scn.world, "program": scn.program,
                 "policy": scn.cfg.policy, "strategy": scn.cfg.strategy,
                 "schedule_len": r.out.trace.len(),
@@ -165,7 +199,7 @@ fn run_batch(prop: &str, seed: u64, start: u64, count: u64, replay_dir: &str, pr
                 if out.violations.len() < max_viol {
                     let mut scn2 = scn.clone();
                     scn2.cfg.replay = Some(r.out.trace.clone());
-                    let path = format!("{}/{}-{}.replay.json", replay_dir, prop, run_seed);
+                    let path = format!("{}/{}-{}-{}.replay.json", replay_dir, prop, run_seed, variant);
                     let rf = ReplayFile {
                         property: p.to_string(),
                         clause: format!("{:?}", ev.clause),
@@ -185,10 +219,6 @@ fn run_batch(prop: &str, seed: u64, start: u64, count: u64, replay_dir: &str, pr
                 *out.other_property_events.entry(format!("{}:{:?}", p, ev.clause)).or_insert(0) += 1;
             }
         }
-    }
-    out.distinct_nontrivial = fps.len() as u64;
-    out.fingerprints = fps.into_iter().collect();
-    out
 }
 
 fn main() {
@@ -213,7 +243,20 @@ fn main() {
         Some("replay") => {
             let path = args.get(2).expect("replay file");
             let rf: ReplayFile = serde_json::from_str(&std::fs::read_to_string(path).expect("read replay")).expect("parse replay");
-            let r = interp::run_scenario(&rf.scenario);
+            let mut scn = rf.scenario.clone();
+            scn.cfg.record_log = true;
+            let r = interp::run_scenario(&scn);
+            if args.iter().any(|a| a == "--log") {
+                let names = ["Lock", "TryLock", "Unlock", "LockShared", "TryLockShared", "UnlockShared", "LockExcl", "TryLockExcl", "UnlockExcl"];
+                for (i, w) in r.out.log.iter().enumerate() {
+                    let (t, code, lid, res) = (w >> 24, (w >> 16) & 0xff, (w >> 8) & 0xff, w & 0xff);
+                    let name = match code { c if (c as usize) < names.len() => names[c as usize].to_string(), 20 => "yield".into(), 21 => "gate".into(), 22 => "start".into(), 23 => "end".into(), c => format!("op{}", c) };
+                    println!("  {:4} T{} {:<14} lock {} ok={} panic={}", i, t, name, lid, res & 1, (res >> 1) & 1);
+                }
+                for e in &r.out.events {
+                    println!("  event step {} T{} {:?}: {}", e.step, e.tid, e.clause, e.detail);
+                }
+            }
             match r.out.events.first() {
                 Some(ev) => {
                     let p = oracle::property_of(ev.clause, &rf.scenario);
